@@ -1238,6 +1238,12 @@ fn register_logistic(r: &mut Registry) {
     r.model::<FittedLogisticRegression<f64, bool>>("logistic_model_bool", K, &["FittedLogisticRegression", "BinaryClassLabels", "ClassLabel"], Some((Kind::Claim, false)), |p| lg_build(p, &[false, true]), lg_fp, Some(|a, b| a == b));
     r.model::<FittedLogisticRegression<f64, usize>>("logistic_model_usize", K, &["FittedLogisticRegression", "BinaryClassLabels", "ClassLabel"], Some((Kind::Claim, false)), |p| lg_build(p, &BIN_USIZE), lg_fp, Some(|a, b| a == b));
     r.model::<FittedLogisticRegression<f64, String>>("logistic_model_string", K, &["FittedLogisticRegression", "BinaryClassLabels", "ClassLabel"], Some((Kind::Claim, false)), |p| lg_build(p, &strings(&BIN_STR)), lg_fp, Some(|a, b| a == b));
+    // class types beyond the usual primitives: the class parameter is any ordered type
+    r.model::<FittedLogisticRegression<f64, (u8, u8)>>("logistic_model_tuple", K, &["FittedLogisticRegression", "BinaryClassLabels", "ClassLabel"], None, |p| lg_build(p, &[(2u8, 1u8), (1u8, 7u8)]), lg_fp, Some(|a, b| a == b));
+    r.model::<FittedLogisticRegression<f64, Option<u8>>>("logistic_model_option", K, &["FittedLogisticRegression", "BinaryClassLabels", "ClassLabel"], None, |p| lg_build(p, &[Some(4u8), None]), lg_fp, Some(|a, b| a == b));
+    r.model::<FittedLogisticRegression<f64, i64>>("logistic_model_negative_int", K, &["FittedLogisticRegression", "BinaryClassLabels", "ClassLabel"], None, |p| lg_build(p, &[-1i64, i64::MIN]), lg_fp, Some(|a, b| a == b));
+    r.model::<MultiFittedLogisticRegression<f64, (u8, u8)>>("logistic_multi_model_tuple", K, &["MultiFittedLogisticRegression"], None, |p| lgm_build(p, &[(0u8, 9u8), (3, 3), (1, 0), (0, 2), (9, 9), (5, 1), (2, 8)]), lgm_fp, Some(|a, b| a == b));
+    r.model::<MultiFittedLogisticRegression<f64, Option<u8>>>("logistic_multi_model_option", K, &["MultiFittedLogisticRegression"], None, |p| lgm_build(p, &[Some(3u8), None, Some(0), Some(200), Some(7), Some(1), Some(90)]), lgm_fp, Some(|a, b| a == b));
     r.model::<FittedLogisticRegression<f32, usize>>(
         "logistic_model_f32",
         K,
